@@ -89,7 +89,11 @@ func specRefs(s *workload.TypeSpec) []string {
 // splitSpec moves the tail of a spec's members into an extend fragment.
 func splitSpec(t *tape.Tape, s *workload.TypeSpec) (base, ext string, ok bool) {
 	cp := *s
-	switch s.Kind {
+	kind := s.Kind
+	if len(s.DirUses) > 0 && t.Bool(1, 3) {
+		kind = "" // move the directives instead of members (extension with an empty body)
+	}
+	switch kind {
 	case "object", "interface", "input":
 		if len(s.Fields) < 2 {
 			break
